@@ -425,6 +425,7 @@ func newLeaf(parent Tree, r *Route, s *Segment, h Handler) (Leaf, error) {
 		if _, exists := parentBindSet[bind]; exists {
 			return nil, errors.Errorf("duplicated bind parameter %q in position %d", bind, s.Pos.Offset)
 		}
+		parentBindSet[bind] = struct{}{} // Bind parameters must also be unique within the segment
 	}
 
 	return &regexLeaf{
